@@ -7,6 +7,7 @@
 //  - a dynamic loop hands out chunks of `chunk` iterations, each iteration to exactly one thread
 // Compiled with the same instrumentation as the code under test, so interleavings inside the
 // shim are explored as well; its state lives in the DSO image and is reset for every run.
+#include <sched.h>
 #include <pthread.h>
 #include <stdint.h>
 #include <stdlib.h>
@@ -76,6 +77,10 @@ int g_max_active_levels = 1;  // nested regions beyond this many active levels g
 
 int default_threads()
 {
+  // like the real library: the CPUs this process may run on (affinity mask), not the CPUs that are online
+  cpu_set_t set;
+  if (sched_getaffinity(0, sizeof set, &set) == 0 && CPU_COUNT(&set) > 0)
+    return CPU_COUNT(&set);
   long n = sysconf(_SC_NPROCESSORS_ONLN);
   return n > 0 ? (int)n : 1;
 }
